@@ -101,3 +101,21 @@ def _c16_rank(v, rec):
     f = v.get("facts", {})
     return (f.get("gamma", 1.0) < 1.0 and f.get("max_abs_reported_gain", 0.0) > 1e-6
             and v["clause"] in ("state_value!=optimal-discounted-value", "returned-policy-not-value-optimal"))
+
+
+@mechanism("C20-absorbing-cell-cuts-the-grid")
+def _c20_stray(v, rec):
+    """Built-in domains that keep moving out of their absorbing cells (HeavenOrHell, WindyGridWorld):
+    a cell reachable only THROUGH an absorbing cell is a positive-probability successor outside the
+    inferred (absorbing-not-expanded) state list -- the C06-stray-absorbing mechanism on a built-in
+    domain. Matches only if the offending successor lies in closure-with-absorbing-expanded minus the
+    list, and (for the closure clause) the source state is absorbing."""
+    f = v.get("facts", {})
+    outside = f.get("outside_list_but_reachable_via_absorbing") or []
+    if f.get("domain") not in ("HeavenOrHell", "WindyGridWorld"):
+        return False
+    if v["clause"] == "successor-outside-state_list":
+        return bool(f.get("state_is_absorbing")) and f.get("successor") in outside
+    if v["clause"].startswith("exception:") and f.get("exc_type") == "KeyError":
+        return any("tabularmdp.py" in w or "tabularpomdp.py" in w for w in f.get("where", [])) and f.get("exc_msg") in outside
+    return False
